@@ -16,6 +16,7 @@
 -/
 import Upnp.Lemmas.C13Announce
 import Upnp.Lemmas.C13Loop
+import Upnp.Lemmas.C13Wire
 import Upnp.Model.C13Consts
 namespace Upnp.C13
 
@@ -174,6 +175,27 @@ theorem listener_accepts {t : DevTree} (hw : wfTree t = true) {loc : Str} (hl : 
     obtain ⟨e, he, rfl⟩ := List.mem_map.mp hm
     have heok := expAll_ok w e he
     exact ⟨e, he, rfl, hearAlive_ok heok hl, hearByebye_ok heok hl⟩
+
+/-! ### the wire -/
+
+/-- **wire round trip**: the reader the driver applies to the implementation's datagrams
+    (`parsePacket`) inverts `build_ssdp_packet` (`packet`) for CR-free text and colon-free header
+    names; so when the correspondence check finds the implementation's bytes equal to the model's,
+    the judge sees the model's start line and headers -/
+theorem wire_round_trip (line : Str) (hs : List (Str × Str)) (hl : '\r' ∉ line)
+    (hh : ∀ h ∈ hs, ':' ∉ h.1 ∧ '\r' ∉ h.1 ∧ '\r' ∉ h.2) :
+    parsePacket (packet line hs) = some (line, hs) :=
+  parsePacket_packet line hs hl hh
+
+/-- the fields the judge reads from a response / notification are the message's own -/
+theorem wire_fields (c : Cfg) (m : Msg) (nts : Str) :
+    header (responseHeaders c m) "st".toList = m.st ∧ header (responseHeaders c m) "usn".toList = m.usn
+    ∧ header (responseHeaders c m) "location".toList = c.location
+    ∧ header (responseHeaders c m) "nts".toList = []
+    ∧ header (notifyHeaders c nts m) "nt".toList = m.st ∧ header (notifyHeaders c nts m) "usn".toList = m.usn
+    ∧ header (notifyHeaders c nts m) "location".toList = c.location
+    ∧ header (notifyHeaders c nts m) "nts".toList = nts := by
+  refine ⟨rfl, rfl, rfl, rfl, rfl, rfl, rfl, rfl⟩
 
 /-! ### the whole property -/
 
